@@ -87,6 +87,9 @@ class Problem:
 
     def hamiltonian(self):
         conv = {"dense": lambda x: np.array(x), "sparse": lambda x: sparse.csr_array(x),
+                # real dtype wherever the values are real (e.g. real hoppings next to a complex H_0 with gain / loss)
+                "dense-real": lambda x: np.array(np.real_if_close(x)), "sparse-real": lambda x: sparse.csr_array(np.real_if_close(x)),
+                "coo-real": lambda x: sparse.coo_array(np.real_if_close(x)),
                 "sympy": lambda x: sympy.Matrix(np.asarray(x).shape[0], np.asarray(x).shape[1], lambda i, j: sympy.nsimplify(complex(np.asarray(x)[i, j]), rational=True))}[self.fmt]
         d = {tuple([0] * self.nparam): conv(np.diag(self.E).astype(complex) if self.h0_dtype is complex else np.diag(self.E.real).astype(self.h0_dtype))}
         for o, m in self.terms.items():
@@ -311,6 +314,23 @@ def section_herm():
     # chain of near-degeneracies with a large tolerance (kept pattern not transitive)
     pb = Problem([0.0, 0.1, 0.2, 1.0, 2.0], [0, 0, 0, 0, 0], seed=3)
     check_problem("herm", pb, 3, fully=(0,), atol=0.15, label="chain/atol0.15")
+    # longer chains: every three consecutive levels lie within atol, the whole chain does not (kept pattern not transitive, yet no level is within atol of both
+    # neighbours while those are farther apart); sorted and unsorted, in the second of two blocks, sparse
+    for E, sub, fully, fmt, lab in (([0.0, 0.125, 0.25, 0.375, 2.0], [0] * 5, (0,), "dense", "chain4"), ([0.25, 2.0, 0.0, 0.375, 0.125], [0] * 5, (0,), "dense", "chain4/unsorted"),
+                                    ([3.0, 5.0, 0.0, 0.125, 0.25, 0.375, 0.5], [0, 0, 1, 1, 1, 1, 1], (1,), "dense", "chain5/block1"),
+                                    ([0.0, 0.125, 0.25, 0.375, 2.0], [0] * 5, (0,), "sparse", "chain4/sparse")):
+        pb = Problem(E, sub, seed=4, fmt=fmt)
+        check_problem("herm", pb, 2, fully=fully, atol=0.3, label=f"{lab}/atol0.3")
+    # symbolic (exact rational) values: several fully diagonalized blocks of the SAME size with different degeneracy patterns (a mask is a property of its block,
+    # not of its shape), also selective masks that differ between equally sized blocks
+    for E, sub, fully in (([0, 0, 1, 3], [0, 0, 1, 1], (0, 1)), ([1, 3, 0, 0], [0, 0, 1, 1], (0, 1)), ([0, 2, 2, 5, 7, 7], [0, 1, 1, 0, 2, 2], (0, 1, 2))):
+        pb = Problem(E, sub, seed=31, fmt="sympy", cplx=False)
+        check_problem("herm", pb, 2, fully=fully, label=f"sympy/equal-size-blocks/{E}")
+    pb = Problem([0, 1, 3, 5, 8], [0, 0, 1, 1, 2], seed=32, fmt="sympy", cplx=False)
+    none = np.zeros((2, 2), dtype=bool)
+    swap = np.array([[False, True], [True, False]])
+    check_problem("herm", pb, 2, mask_dict={0: none, 1: swap}, label="sympy/equal-size-blocks/different-masks")
+    check_problem("herm", pb, 2, mask_dict={0: swap, 1: none}, label="sympy/equal-size-blocks/different-masks-reversed")
     # exact comparisons requested: atol = 0 (exactly degenerate and exactly zero entries only)
     for fmt in ("dense", "sparse"):
         pb = Problem([0.0, 0.0, 2.0, 3.5], [0, 0, 1, 1], seed=9, fmt=fmt)
@@ -333,6 +353,12 @@ def section_nonherm():
             for nparam, maxtot in ((1, 3), (2, 2)):
                 pb = Problem(E, sub, nparam=nparam, hermitian=False, seed=10 + li, fmt=fmt)
                 check_problem("nonherm", pb, maxtot, fully=fully, label=f"nh{li}/{fmt}/p{nparam}")
+    # complex energies (gain / loss) with REAL-dtype perturbations: the solution Y / (E_i - E_j) of a real right-hand side is complex
+    for li in (4, 5):
+        E, sub, fully = layouts[li]
+        for fmt in ("dense-real", "sparse-real", "coo-real"):
+            pb = Problem(E, sub, nparam=1, hermitian=False, seed=50 + li, fmt=fmt, cplx=False)
+            check_problem("nonherm", pb, 3, fully=fully, label=f"nh{li}/{fmt}/real-perturbation")
     # asymmetric elimination masks (allowed without Hermiticity), dense and sparse values, on inputs where the shipped algorithm is exact:
     # a single block with a triangular mask
     for li, (E, upper) in enumerate((([0.0, 1.0, 2.5, 4.0], True), ([0.5j, 1.0, 3.0 + 1j], False))):
@@ -599,6 +625,49 @@ def section_inputs_untouched():
                     fail("inputs_untouched", "an entry of the caller's container was replaced", value=hname, container=container, key=k, before=tp.__name__, after=type(v2).__name__)
                 elif not np.array_equal((v2.toarray() if sparse.issparse(v2) else np.array(v2)), arr):
                     fail("inputs_untouched", "a value passed by the caller was modified in place", value=hname, container=container, key=k)
+
+
+    # pre-blocked input whose sparse blocks store entries within atol and explicit zeros: the stored pattern and data of the caller's blocks stay as they are,
+    # and a second computation from the same block objects with another atol does not depend on what the first one has evaluated
+    for fmt in (sparse.csr_array, sparse.csc_array, sparse.coo_array):
+        cases += 1
+        try:
+            def blocks_of(A):
+                out = []
+                for r in (slice(0, 2), slice(2, 4)):
+                    row = []
+                    for c in (slice(0, 2), slice(2, 4)):
+                        d = A[r, c].copy()
+                        b = sparse.coo_array(d)
+                        # store every entry explicitly, zeros included
+                        rr, cc = np.nonzero(np.ones_like(d))
+                        row.append(fmt(sparse.coo_array((d[rr, cc], (rr, cc)), shape=d.shape)))
+                    out.append(row)
+                return out
+            H0 = np.diag(E)
+            H1 = M.copy()
+            H1[0, 1] = H1[1, 0] = 3e-7        # between the two tolerances used below
+            H1[2, 3] = H1[3, 2] = 5e-14       # within the default atol
+            b0, b1 = blocks_of(H0), blocks_of(H1)
+            b0[0][1] = b0[1][0] = zero
+            snap = [(blk, blk.nnz, blk.toarray().copy(), np.array(blk.data).copy()) for row in b0 + b1 for blk in row if blk is not zero]
+            loose = block_diagonalize([b0, b1], atol=1e-6)
+            tight = block_diagonalize([b0, b1])
+            for o in range(3):
+                loose[0][0, 0, o], loose[1][0, 1, o]
+            got = [dense(tight[s][i, j, o], (2, 2)).copy() for s in range(3) for i in range(2) for j in range(2) for o in range(3)]
+            fresh = block_diagonalize([blocks_of(H0)[0][:1] + [zero], [zero] + blocks_of(H0)[1][1:]], atol=1e-12) if False else None
+            ref = block_diagonalize([[[np.array(H0[:2, :2]), zero], [zero, np.array(H0[2:, 2:])]], [[H1[:2, :2], H1[:2, 2:]], [H1[2:, :2], H1[2:, 2:]]]])
+            want = [dense(ref[s][i, j, o], (2, 2)) for s in range(3) for i in range(2) for j in range(2) for o in range(3)]
+            for blk, nnz, arr, data in snap:
+                if blk.nnz != nnz or not np.array_equal(blk.toarray(), arr) or not np.array_equal(np.array(blk.data), data):
+                    fail("inputs_untouched", "a sparse block passed by the caller was modified in place (stored entries removed or zeroed)", format=fmt.__name__)
+                    break
+            err = max(float(np.abs(g - w).max()) for g, w in zip(got, want))
+            if err > 1e-10:
+                fail("inputs_untouched", "a computation depends on what another computation built from the same input blocks has evaluated", format=fmt.__name__, err=err)
+        except Exception as e:  # noqa: BLE001
+            fail("inputs_untouched", "pre-blocked sparse input raised", format=fmt.__name__, error=repr(e)[:300])
 
 
 def section_solvers():
@@ -936,6 +1005,23 @@ def section_illposed():
                 return block_diagonalize(ham, symbols=[x_], subspace_eigenvectors=subs, hermitian=False)[0][0, 0, 2]
             return block_diagonalize([h0q.astype(float), h1q.astype(float)], subspace_eigenvectors=subs, hermitian=False)[0][0, 0, 2]
         expect(f"left vectors not dual to the right vectors ({cl})", (ValueError,), thunk_b)
+    # malformed designations of states, blocks and orders
+    hq0, hq1 = np.diag([0.0, 1.0, 3.0]), np.array([[1, 2, 1], [2, 0, 3], [1, 3, -1]]) / 8
+    expect("negative label in subspace_indices", (ValueError,), lambda: block_diagonalize([hq0, hq1], subspace_indices=[0, -1, 1])[0][0, 0, 2])
+    for fd in ((-1,), [2], {-1: np.zeros((1, 1), dtype=bool)}, {5: np.zeros((2, 2), dtype=bool)}):
+        expect(f"fully_diagonalize names a block that does not exist ({fd!r})", (ValueError,), lambda fd=fd: block_diagonalize([hq0, hq1], subspace_indices=[0, 1, 1], fully_diagonalize=fd)[0][1, 1, 2])
+    xq, yq = sympy.symbols("x_q y_q")
+    for key in (1 / xq, sympy.sqrt(xq), xq ** sympy.Rational(3, 2), yq / xq ** 2):
+        expect(f"dictionary key that is no monomial ({key})", (ValueError,), lambda key=key: block_diagonalize({sympy.S.One: hq0, xq: hq1, key: hq1})[0][0, 0, 1, 0])
+    # operator-valued masks must be adjoint-symmetric in Hermitian mode, like numeric ones
+    from sympy.physics.quantum import Dagger as _Dg
+    from sympy.physics.quantum.boson import BosonOp as _Bos
+    from pymablock.number_ordered_form import NumberOperator as _Num
+    aq = _Bos("a")
+    H0o = sympy.Matrix([[_Num(aq) + sympy.Rational(3, 2), 0], [0, _Num(aq) - sympy.Rational(3, 2)]])
+    H1o = sympy.Matrix([[0, aq + _Dg(aq)], [aq + _Dg(aq), 0]])
+    expect("operator-valued mask that is not adjoint-symmetric in Hermitian mode", (ValueError,),
+           lambda: block_diagonalize([H0o, H1o], fully_diagonalize=sympy.Matrix([[0, aq], [aq, 0]]))[0][0, 0, 1])
     # mutually exclusive options
     expect("subspace_indices and subspace_eigenvectors together", (ValueError,), lambda: block_diagonalize(
         [np.diag([0.0, 1.0, 3.0, 4.0]), herm(4, False)], subspace_eigenvectors=(v[:, :2], v[:, 2:]), subspace_indices=[0, 0, 1, 1]))
